@@ -5,9 +5,9 @@
 set -e
 n="$1"
 W=$(sh /verif/tools/mkwt.sh "$n")
-cp -a /verif/target "$W/verif/target"
+rsync -a --ignore-missing-args /verif/target/ "$W/verif/target/" || true
 mkdir -p "$W/verif/lean"
-cp -a /verif/lean/.lake "$W/verif/lean/.lake"
+rsync -a /verif/lean/.lake/ "$W/verif/lean/.lake/" || true
 [ -f /verif/harness/Cargo.lock ] && cp /verif/harness/Cargo.lock "$W/verif/harness/Cargo.lock"
 (cd "$W/verif" && ROTO_REPO="$W/repo" ./setup.sh > "$W/setup.log" 2>&1) || true
 echo "$W"
